@@ -157,7 +157,7 @@ impl Drop for Tracked {
     fn drop(&mut self) {
         if !self.released {
             self.truth.live.lock().unwrap().remove(&self.id);
-            self.sched.event(format!("destroy({})", self.id));
+            self.sched.event(format!("destroy({},{})", cur_op(), self.id));
         }
     }
 }
